@@ -34,12 +34,13 @@ def maxAbsV (v : Vec) : Rat := v.foldl (fun m x => maxQ m (absQ x)) 0
 /-- exponent bound of `witnessScale` (`std::abs(e) > 16`), regenerated from the source -/
 def scaleExpBound : Nat := Gen.C12Src.witnessExpBound
 
+/-- `std::abs(e) > 16 ? std::ldexp(1.0, -e) : 1.0` -/
+def scaleOfExp (e : Int) : Rat := if scaleExpBound < e.natAbs then pow2 (-e) else 1
+
 /-- `witnessScale(v)`: 1 when the largest magnitude is 0 or its exponent is within the bound, else `ldexp(1.0, -e)` -/
 def witnessScale (v : Vec) : Rat :=
   let m := maxAbsV v
-  if m ≤ 0 then 1 else
-  let e := ilogbPos m.num.natAbs m.den
-  if scaleExpBound < e.natAbs then pow2 (-e) else 1
+  if m ≤ 0 then 1 else scaleOfExp (ilogbPos m.num.natAbs m.den)
 
 /-- `v[i] * scale` for every coordinate -/
 def scaleVec (s : Rat) (v : Vec) : Vec := v.map (fun x => x * s)
